@@ -46,6 +46,24 @@ def fault_fn(task_name: str, nout: int, fault: dict | None):
                 _os._exit(fault.get("code", 3))
             if k == "sigkill":
                 _os.kill(_os.getpid(), _signal.SIGKILL)
+            if k in ("term_shm", "kill_shm"):
+                # the task body stops its own host's shm server while it holds the read buffers of its inputs, then carries on
+                ppid = _os.getppid()
+                kids = []
+                for p in _os.listdir("/proc"):
+                    if p.isdigit():
+                        try:
+                            with open("/proc/" + p + "/stat") as f:
+                                st = f.read()
+                            if int(st[st.rindex(")") + 2:].split()[1]) == ppid:
+                                kids.append(int(p))
+                        except Exception:
+                            pass
+                if kids:
+                    _os.kill(min(kids), _signal.SIGTERM if k == "term_shm" else _signal.SIGKILL)
+                    import time as _time
+
+                    _time.sleep(0.5)
 
         if fault is not None and fault["at"] == "before":
             boom()
